@@ -124,8 +124,12 @@ func c05IamLevel(base *Wrapper) storage.VerifC05Level {
 		}
 		httpCtx := context.WithValue(context.Background(), httpRequestContextKey{}, &http.Request{Header: http.Header{}})
 		var fns []func() string
-		for _, r := range scn.Threads {
+		seeded := w
+		for ti, r := range scn.Threads {
 			r := r
+			// the node that serves this request
+			w := seeded
+			w.storageEngine = c05Engine{Engine: base.storageEngine, db: b.DBFor(ti)}
 			switch r.Kind {
 			case "code":
 				fns = append(fns, func() string {
@@ -287,6 +291,7 @@ func TestVerifC05(t *testing.T) {
 			init = nil
 		}
 		scns = append(scns, c05Scn(k+"-2-redis", "redis", init, vs[0], vs[rng.Intn(len(vs))]))
+		scns = append(scns, c05Scn(k+"-2-multinode", "redis-multinode", init, vs[0], vs[0]))
 		three = append(three, c05Scn(k+"-3", "mem", init, vs[0], vs[0], vs[0]))
 		if len(vs) > 1 {
 			three = append(three, c05Scn(k+"-3-mixed", "mem", init, vs[0], vs[rng.Intn(len(vs))], vs[1+rng.Intn(len(vs)-1)]))
